@@ -290,6 +290,33 @@ func (cx *SpecCtx) lookupLocal(name string) (sval, bool) {
 				}
 			}
 		}
+		// prefer the candidates declared in blocks that dominate this point; among them the innermost
+		{
+			var dom []*ssa.Alloc
+			for _, a := range allocs {
+				if a.Block() == cx.at || a.Block().Dominates(cx.at) {
+					dom = append(dom, a)
+				}
+			}
+			if len(dom) >= 1 {
+				best := dom[0]
+				for _, a := range dom[1:] {
+					if best.Block().Dominates(a.Block()) && best.Block() != a.Block() {
+						best = a
+					} else if best.Block() == a.Block() && a.Pos() > best.Pos() {
+						best = a
+					}
+				}
+				distinctBlocks := map[*ssa.BasicBlock]bool{}
+				for _, a := range dom {
+					distinctBlocks[a.Block()] = true
+				}
+				if len(dom) == 1 || len(distinctBlocks) > 1 {
+					key := g.cellOf[best]
+					return norm(sval{t: g.get(cx.st, key), typ: g.cellType[key], kind: "val"}), true
+				}
+			}
+		}
 		// choose by lexical scope at the loop header position
 		var pos = cx.at.Instrs[0].Pos()
 		for _, in := range cx.at.Instrs {
@@ -370,6 +397,9 @@ func (cx *SpecCtx) eval(e Expr) sval {
 				return sval{t: v.t, typ: pt, kind: "loc"}
 			}
 			return norm(sval{t: fmt.Sprintf("(select %s %s)", g.get(cx.st, g.sc.cellComp(pt)), v.t), typ: pt, kind: "val"})
+		}
+		if key, kind, ok := cx.g.ghostVar(x.Name); ok {
+			return sval{t: g.get(cx.st, key), kind: kind}
 		}
 		if o := cx.pkg.Scope().Lookup(x.Name); o != nil {
 			switch c := o.(type) {
@@ -1332,6 +1362,9 @@ func (cx *SpecCtx) locations(e Expr) []location {
 		// single element: over-approximate by the whole backing array / map
 		return cx.locations(&EStar{x.X})
 	case *EIdent:
+		if key, _, ok := g.ghostVar(x.Name); ok {
+			return []location{{comp: key, pred: func(string) string { return "true" }}}
+		}
 		// captured variable or global
 		if v, ok := cx.vars["&"+x.Name]; ok {
 			pt := deref(v.typ)
@@ -1340,6 +1373,14 @@ func (cx *SpecCtx) locations(e Expr) []location {
 			}
 			return []location{{comp: g.sc.cellComp(pt), ref: v.t}}
 		}
+	}
+	if c, ok := e.(*ECall); ok && c.Fun == "anyarray" && len(c.Args) == 1 {
+		// anyarray(T): every array (slice backing store) with element type T
+		t := cx.resolveType(strings.Trim(c.Args[0].String(), "\""))
+		if _, isS := isStruct(t); isS {
+			cx.fail("anyarray of struct type: use any(T)")
+		}
+		return []location{{comp: g.sc.elemComp(t), pred: func(string) string { return "true" }}}
 	}
 	if c, ok := e.(*ECall); ok && c.Fun == "any" && len(c.Args) == 1 {
 		// any(T): every object of struct type T (all its leaf fields, including nested structs)
@@ -1392,4 +1433,29 @@ func (env *Env) isLemmaInstance(e Expr) bool {
 		return x.Forall && env.isLemmaInstance(x.Body)
 	}
 	return false
+}
+
+
+// ghostVar resolves a ghost global variable declared with "ghost var" in any contract file.
+func (g *FuncGen) ghostVar(name string) (key string, kind string, ok bool) {
+	for _, sf := range g.env.Specs {
+		if t, found := sf.GhostVars[name]; found {
+			key = "G:ghost." + name
+			srt := "Int"
+			kind = "int"
+			switch t {
+			case "bool":
+				srt, kind = "Bool", "bool"
+			case "intmap":
+				srt, kind = "(Array Int Int)", "intmap"
+			case "intset":
+				srt, kind = "(Array Int Bool)", "intset"
+			}
+			if _, have := g.cellSort[key]; !have {
+				g.cellSort[key] = srt
+			}
+			return key, kind, true
+		}
+	}
+	return "", "", false
 }
